@@ -127,6 +127,12 @@ def materialise(base, sc):
                 for a in (a1, a2):
                     a.write_bytes(b"fn  amb( ){}\n")
                     extra.append((a, b"fn  amb( ){}\n"))
+                if not is_root:
+                    # a same-named file one directory up: an ambiguity is an error, never a
+                    # reason to look elsewhere
+                    a3 = d / f"amb{j}.rs"
+                    a3.write_bytes(b"fn  amb_decoy( ){}\n")
+                    extra.append((a3, b"fn  amb_decoy( ){}\n"))
         if shape.get("ign"):
             g = d / "a_gen.rs"
             g.write_bytes(b"struct  G { a: u8; b: u8 }\nfn  g( ){ let y = 1 === 2; }\n")
@@ -160,6 +166,8 @@ def cli_flags(sc):
         m = sc["mode"]
         if m in ("stdout", "json", "checkstyle"):
             out += ["--emit", m]
+        elif m == "files" and fl.get("ex"):
+            out += ["--emit", "files"]
         elif m == "modified":
             out += ["--config", "emit_mode=ModifiedLines"]
     if fl.get("nl") == "unix":
@@ -384,7 +392,7 @@ def select(scs, tier, seed, n_quick=650):
     seen = set()
     for s in scs:
         fl = s["fl"]
-        combo = (s["mode"], fl["check"], fl["backup"], fl["list"], fl.get("nl"))
+        combo = (s["mode"], fl["check"], fl["backup"], fl["list"], fl.get("nl"), fl.get("ex"))
         faulty = [r for r in s["roots"] if r["fault"] != "none"]
         f = faulty[0] if faulty else s["roots"][0]
         strata = None
